@@ -40,12 +40,11 @@ static uint64_t nx(uint64_t *s) {
   return z ^ (z >> 31);
 }
 
-static void init(void) {
-  if (inited) return;
-  inited = 1;
-  const char *e = getenv("SIM_ENTROPY");
-  ent_state = e ? strtoull(e, 0, 10) : 0;
-  e = getenv("SIM_IO");
+static void configure(const char *entropy, const char *e) {
+  ent_state = entropy ? strtoull(entropy, 0, 10) : 0;
+  n_rand = n_read = n_write = n_rs = n_re = n_ws = n_we = n_call = 0;
+  n_injected = n_planned = 0;
+  io_mode = 0;
   if (!e || !*e || !strcmp(e, "0")) { io_mode = 0; return; }
   if (!strncmp(e, "list:", 5)) {
     io_mode = 2;
@@ -69,6 +68,30 @@ static void init(void) {
   sscanf(e, "%llu:%u:%u:%u:%u", &seed, &a, &b, &c, &d);
   io_state = seed; rate_rs = a; rate_re = b; rate_ws = c; rate_we = d;
 }
+
+static void init(void) {
+  if (inited) return;
+  inited = 1;
+  configure(getenv("SIM_ENTROPY"), getenv("SIM_IO"));
+}
+
+/* Server mode of the simulated CLI: one process serves many runs; every run starts from a
+ * freshly configured environment (same state as a fresh process with these SIM_* values). */
+static int paused;
+void simenv_reset(const char *entropy, const char *io) { inited = 1; paused = 0; configure(entropy, io); }
+/* Between two runs the server does its own bookkeeping I/O: no faults, no accounting. */
+void simenv_pause(void) { paused = 1; }
+
+static int stats_json(char *buf, size_t cap) {
+  int n = snprintf(buf, cap, "{\"getrandom\":%lu,\"read\":%lu,\"read_short\":%lu,\"read_eintr\":%lu,\"write\":%lu,\"write_short\":%lu,\"write_eintr\":%lu,\"injected\":\"",
+          n_rand, n_read, n_rs, n_re, n_write, n_ws, n_we);
+  unsigned long m = n_injected < MAX_EVENTS ? n_injected : MAX_EVENTS;
+  for (unsigned long i = 0; i < m && (size_t)n + 64 < cap; i++)
+    n += snprintf(buf + n, cap - n, "%s%lu:%s:%lu", i ? "," : "", injected[i].call, injected[i].kind, injected[i].len);
+  n += snprintf(buf + n, cap - n, "\",\"injected_total\":%lu}", n_injected);
+  return n;
+}
+int simenv_stats(char *buf, size_t cap) { return stats_json(buf, cap); }
 
 static void note(unsigned long call, const char *kind, unsigned long len) {
   if (n_injected < MAX_EVENTS) {
@@ -113,7 +136,9 @@ ssize_t getrandom(void *buf, size_t len, unsigned int flags) {
 }
 
 ssize_t read(int fd, void *buf, size_t len) {
-  init(); n_read++;
+  init();
+  if (paused) return syscall(SYS_read, fd, buf, len);
+  n_read++;
   size_t l = len;
   int f = decide(0, len, &l);
   if (f == 2) { n_re++; errno = EINTR; return -1; }
@@ -122,7 +147,9 @@ ssize_t read(int fd, void *buf, size_t len) {
 }
 
 ssize_t write(int fd, const void *buf, size_t len) {
-  init(); n_write++;
+  init();
+  if (paused) return syscall(SYS_write, fd, buf, len);
+  n_write++;
   if (fd == 2) return syscall(SYS_write, fd, buf, len);
   size_t l = len;
   int f = decide(1, len, &l);
@@ -134,13 +161,11 @@ ssize_t write(int fd, const void *buf, size_t len) {
 __attribute__((destructor)) static void fin(void) {
   const char *e = getenv("SIM_STATS");
   if (!e) return;
+  static char buf[1 << 17];
+  paused = 1;
+  int n = stats_json(buf, sizeof buf);
   FILE *f = fopen(e, "w");
   if (!f) return;
-  fprintf(f, "{\"getrandom\":%lu,\"read\":%lu,\"read_short\":%lu,\"read_eintr\":%lu,\"write\":%lu,\"write_short\":%lu,\"write_eintr\":%lu,\"injected\":\"",
-          n_rand, n_read, n_rs, n_re, n_write, n_ws, n_we);
-  unsigned long n = n_injected < MAX_EVENTS ? n_injected : MAX_EVENTS;
-  for (unsigned long i = 0; i < n; i++)
-    fprintf(f, "%s%lu:%s:%lu", i ? "," : "", injected[i].call, injected[i].kind, injected[i].len);
-  fprintf(f, "\",\"injected_total\":%lu}\n", n_injected);
+  fwrite(buf, 1, (size_t)n, f); fputc('\n', f);
   fclose(f);
 }
